@@ -505,6 +505,29 @@ def c5_bucket(fb, rep):
     if rep.need(clause, su, TT + '::setUsedSize'):
         inv = {n['e']['cv'] for _, _, e in su.events() for n in walk(e) if n.get('k') == 'un' and n.get('op') == '~' and 'cv' in (n.get('e') or {})}
         rep.ob(clause, 'K11 constant agreement', 'setUsedSize: low-bit mask clears exactly bucket-1 (~3)', inv == {3}, su.where, str(sorted(inv)), su.sname)
+    # a score decoded at ply p and stored again is encoded at the same ply (re-store sites such as setBusy)
+    n_re = 0
+    for f in sorted(fb.funcs.values(), key=lambda x: x.key):
+        if not f.has_cfg or not R.in_engine(f):
+            continue
+        decoded = {}     # move variable id -> ply tree of the getScore it was scored with
+        for b, i, e in f.events():
+            if e.get('k') == 'call' and cname(e) == 'Move::setScore' and isinstance(e.get('recv'), dict) and e['recv'].get('k') == 'var':
+                gs_ = [n for a in e.get('args', []) for n in walk(a) if n.get('k') == 'call' and cname(n) == ENT + '::getScore' and n.get('args')]
+                if gs_:
+                    decoded[e['recv'].get('id')] = gs_[0]['args'][0]
+        if not decoded:
+            continue
+        for b, i, e in f.events():
+            if e.get('k') == 'call' and cname(e).split('::')[-1] == 'insert' and 'TranspositionTable' in cname(e) or (e.get('k') == 'call' and cname(e) == 'ClusterTT::insert'):
+                a = e.get('args', [])
+                if len(a) >= 4 and isinstance(_strip(a[1]), dict) and _strip(a[1]).get('id') in decoded:
+                    n_re += 1
+                    p_read = decoded[_strip(a[1])['id']]
+                    same = show(_strip(p_read)) == show(_strip(a[3])) and (_strip(p_read) or {}).get('id') == (_strip(a[3]) or {}).get('id')
+                    rep.ob(clause, 'K10 sibling agreement', '%s: a score decoded with getScore(ply) is stored again at the same ply' % f.sname, same, R.site(f, e),
+                           'decoded at %s, stored at %s' % (show(p_read), show(a[3])), f.sname)
+    rep.floor(clause, 're-store sites of a decoded score', n_re, 1)
     rs = fb.find1(TT + '::reSize')
     if rep.need(clause, rs, TT + '::reSize'):
         inv = {n['e']['cv'] for _, _, e in rs.events() for n in walk(e) if n.get('k') == 'un' and n.get('op') == '~' and 'cv' in (n.get('e') or {})}
